@@ -932,7 +932,21 @@ func (s *State) evalForInteger(fe *ast.ForExpression, start *int64, end int64, n
 			ptr = register.Ptr()
 		} // else: no register available or the body isn't suitable (e.g. i++ or function literal): use a variable.
 	}
+	// Once done (whichever way), release the register and leave the last value in the variable like the
+	// non register version does.
+	ran := false
+	done := func(res object.Object) object.Object {
+		if ptr != nil {
+			last := *ptr
+			s.env.ReleaseRegister(register)
+			if ran {
+				s.env.Set(name, object.Integer{Value: last})
+			}
+		}
+		return res
+	}
 	for i := startValue; i < endValue; i++ {
+		ran = true
 		if ptr == nil && name != "" {
 			s.env.Set(name, object.Integer{Value: int64(i)})
 		}
@@ -942,27 +956,24 @@ func (s *State) evalForInteger(fe *ast.ForExpression, start *int64, end int64, n
 		nextEval := s.evalInternal(newBody)
 		switch nextEval.Type() {
 		case object.ERROR:
-			return nextEval
+			return done(nextEval)
 		case object.RETURN:
 			r := nextEval.(object.ReturnValue)
 			switch r.ControlType {
 			case token.BREAK:
-				return lastEval
+				return done(lastEval)
 			case token.CONTINUE:
 				continue
 			case token.RETURN:
-				return r
+				return done(r)
 			default:
-				return s.Errorf("for loop unexpected control type %s", r.ControlType.String())
+				return done(s.Errorf("for loop unexpected control type %s", r.ControlType.String()))
 			}
 		default:
 			lastEval = nextEval
 		}
 	}
-	if ptr != nil {
-		s.env.ReleaseRegister(register)
-	}
-	return lastEval
+	return done(lastEval)
 }
 
 func (s *State) evalForSpecialForms(fe *ast.ForExpression) (object.Object, bool) {
